@@ -1400,8 +1400,22 @@ def _tuple_route(conds, vals_t):
     return None
 
 
-def _func_of_extent(val, vals_t, extent, is_tuple=None):
+def _func_of_extent(val, vals_t, extent, is_tuple=None, P=None, depth=0):
     """val == func(vals[extent])  or  func(*[v[extent] for v in vals])  (func = the parameter or its default)"""
+    if val[0] == 'call' and P is not None and val[1] in P.funcs and depth < 3 and not val[2]:
+        # a helper that applies the reducer (extracted by a refactoring): every return path of it, under the arguments
+        # bound here, must be the reducer applied to exactly these values
+        helper = P.funcs[val[1]]
+        msg = None
+        nret = 0
+        for x in Evaluator(P).run(helper, args=dict(val[3])):
+            if x.kind != 'return':
+                continue
+            nret += 1
+            tr = _tuple_route(x.state.conds, vals_t)
+            m = _func_of_extent(x.value, vals_t, extent, tr if tr is not None else is_tuple, P, depth + 1)
+            msg = msg or m
+        return msg if nret else 'the helper %s never returns' % val[1].split('.')[-1]
     if val[0] == 'callv':
         callee, fargs = val[1], val[2]
         if callee != S('func'):
@@ -1478,7 +1492,7 @@ def rule_stat_routes(ctx, rid):
                     if _is_nan(val):
                         bad = (e, 'a cycle with samples gets NaN')
                         break
-                    msg = _func_of_extent(val, vals_t, extent, _tuple_route(b.conds, vals_t))
+                    msg = _func_of_extent(val, vals_t, extent, _tuple_route(b.conds, vals_t), P)
                     if msg:
                         bad = (e, msg)
                         break
@@ -1510,6 +1524,16 @@ def rule_stat_routes(ctx, rid):
                     if not (it[0] == 'call' and it[1] == 'builtins.range' and len(it[2]) == 1 and it[2][0] == want_it):
                         bad = (e, 'the loop runs over %s, not over the labels 0..max' % show(it)[:50])
                         break
+                init = ls.entry_env.get(out)
+                nan_init = False
+                if init is not None:
+                    t_ = init
+                    while t_[0] == 'meth' and t_[1] in ('astype', 'copy'):
+                        t_ = t_[2]
+                    if t_[0] == 'call' and t_[1] in ('numpy.full', 'numpy.full_like') and len(t_[2]) > 1 and _is_nan(t_[2][1]):
+                        nan_init = True
+                    if t_[0] == 'bin' and t_[1] in ('*', '+', '/') and (_is_nan(t_[3]) or _is_nan(t_[2])):
+                        nan_init = True
                 for knd, b in ls.body_states:
                     n += 1
                     if any(cd[0] == 'call' and cd[1] == 'builtins.isinstance' and len(cd[2]) == 2 and cd[2][1] == vals_t
@@ -1524,6 +1548,8 @@ def rule_stat_routes(ctx, rid):
                         if r is not None:
                             noext = (r == tr)
                     where = 'a cycle without extent' if noext else 'a cycle with samples'
+                    if noext and not sets and nan_init:
+                        continue        # the slot keeps the NaN it was allocated with
                     if len(sets) != 1:
                         bad = (e, '%s: %d stores into the result on one path through the loop (its slot %s)'
                                % (where, len(sets), 'keeps the initial value' if not sets else 'is written twice'))
@@ -1544,7 +1570,7 @@ def rule_stat_routes(ctx, rid):
                     if noext is None and kind == 'slice':
                         bad = (e, 'the values are sliced without testing whether the cycle has a slice')
                         break
-                    msg = _func_of_extent(val, vals_t, extent, _tuple_route(b.conds, vals_t))
+                    msg = _func_of_extent(val, vals_t, extent, _tuple_route(b.conds, vals_t), P)
                     if msg:
                         bad = (e, msg)
                         break
@@ -1567,7 +1593,7 @@ def rule_stat_routes(ctx, rid):
                     if not _is_nan(none_):
                         bad = (e, 'a cycle without extent gets %s instead of NaN' % show(none_)[:40])
                         break
-                    msg = _func_of_extent(some, vals_t, extent, _tuple_route(e.state.conds, vals_t))
+                    msg = _func_of_extent(some, vals_t, extent, _tuple_route(e.state.conds, vals_t), P)
                     if msg:
                         bad = (e, msg)
                         break
